@@ -78,17 +78,18 @@ type Badge struct {
 }
 
 type Relay struct {
-	Sg string `json:"sg"` // signer
-	Pf string `json:"pf"` // provider field
-	Sp string `json:"sp"` // spec
-	E  int    `json:"e"`  // epoch index (cur+1 = future, -1 = negative block)
-	O  int    `json:"o"`  // offset inside the epoch (0 = epoch start)
-	Ss int    `json:"ss"` // session id
-	Cu int    `json:"cu"`
-	Lc bool   `json:"lc"` // lava chain id correct
-	Q  string `json:"q"`  // qos report: none | one | zero | half | bad
-	Tm string `json:"tm"` // tamper after signing: none | sig | cu
-	B  Badge  `json:"b"`
+	Sg  string `json:"sg"`  // signer
+	Pf  string `json:"pf"`  // provider field
+	Pfu bool   `json:"pfu"` // provider field written in the all-upper-case spelling of the address (probe only)
+	Sp  string `json:"sp"`  // spec
+	E   int    `json:"e"`   // epoch index (cur+1 = future, -1 = negative block)
+	O   int    `json:"o"`   // offset inside the epoch (0 = epoch start)
+	Ss  int    `json:"ss"`  // session id
+	Cu  int    `json:"cu"`
+	Lc  bool   `json:"lc"` // lava chain id correct
+	Q   string `json:"q"`  // qos report: none | one | zero | half | bad
+	Tm  string `json:"tm"` // tamper after signing: none | sig | cu
+	B   Badge  `json:"b"`
 }
 
 type Step struct {
@@ -302,9 +303,16 @@ func (w *world) buildBadge(b Badge) (*pairingtypes.Badge, string) {
 	return badge, name
 }
 
+func spell(addr string, upper bool) string {
+	if upper {
+		return strings.ToUpper(addr)
+	}
+	return addr
+}
+
 func (w *world) buildRelay(r Relay) *pairingtypes.RelaySession {
 	rs := &pairingtypes.RelaySession{
-		Provider:    w.acc[r.Pf].Addr.String(),
+		Provider:    spell(w.acc[r.Pf].Addr.String(), r.Pfu),
 		ContentHash: []byte("verif"),
 		SessionId:   uint64(r.Ss),
 		SpecId:      r.Sp,
@@ -617,6 +625,9 @@ func (w *world) advance(kind string, full bool) line {
 	case "down":
 		// a block that arrives late: recorded as downtime of the current epoch
 		p, _ = w.c.NextBlock(w.ts.Keepers.Downtime.GetParams(w.ts.Ctx).EpochDuration + time.Minute)
+	case "bigdown":
+		// a very late block: the current epoch's downtime factor exceeds that of every finished epoch
+		p, _ = w.c.NextBlock(6*w.ts.Keepers.Downtime.GetParams(w.ts.Ctx).EpochDuration + time.Minute)
 	}
 	if uint64(w.ts.BlockHeight()) >= w.estarts[w.curIdx()]+w.eblocks {
 		w.estarts = append(w.estarts, w.ts.EpochStart())
@@ -715,7 +726,7 @@ func TestDrive(t *testing.T) {
 			switch s.A {
 			case "pay":
 				emit(w.pay(s, full))
-			case "epoch", "block", "down":
+			case "epoch", "block", "down", "bigdown":
 				emit(w.advance(s.A, full))
 			default:
 				emit(w.projTx(s, full))
